@@ -904,6 +904,42 @@ pub fn run(_params: &Params) {
       }
     }
   }
+
+  // ---- a document written elsewhere whose OWN id (and every self-reference) spells out the default network name
+  // (`did:iota:iota:0x..`): its self-references are self-references; unpacked for another DID they are all rewritten.
+  if ctx::choose(8) == 0 {
+    let own = format!("did:iota:iota:0x{}", hex_tag());
+    let method = |frag: &str| {
+      let mut m = serde_json::to_value(foreign_method(&own, frag)).unwrap();
+      m["controller"] = own.clone().into();
+      m
+    };
+    let embedded = method("e1");
+    let mut doc_json = serde_json::json!({
+      "id": own,
+      "verificationMethod": [method("k1")],
+      "authentication": [format!("{own}#k1"), embedded],
+      "service": [{"id": format!("{own}#s1"), "type": "SimService", "serviceEndpoint": format!("https://svc.example/about?did={own}")}],
+    });
+    if ctx::choose(2) == 0 {
+      doc_json["controller"] = own.clone().into();
+    }
+    let body = serde_json::json!({"doc": doc_json, "meta": {}});
+    ctx::stat("probe.own_id_spells_default_network");
+    if let Ok(doc) = IotaDocument::from_json_value(body) {
+      let as_read = serde_json::to_value(doc.core_document()).unwrap();
+      // (only a document that kept the spelling is of interest here; a reader that normalises is judged by the
+      // ordinary flow above)
+      if as_read.get("id").and_then(|i| i.as_str()) == Some(own.as_str()) {
+        ctx::stat("probe.own_id_spells_default_network.kept_as_written");
+        if let Ok(Ok(bytes)) = ctx::catch(|| doc.clone().pack()) {
+          let other = format!("did:iota:{}0x{}", ["smr:", "rms:", "tst:"][ctx::choose(3)], hex_tag());
+          let want_other = rewrite_self_refs(&as_read, &own, &other);
+          check_unpacked("own-id-spells-default-network/other-did", &unpack_for(&bytes, &other), &want_other, &expected_meta(&doc));
+        }
+      }
+    }
+  }
   if nontrivial {
     ctx::mark_nontrivial();
   }
